@@ -3,6 +3,8 @@ use crate::rng::Rng;
 use std::fmt::Write as _;
 
 pub mod c01;
+pub mod c10;
+pub mod c12;
 pub mod common;
 pub mod profiles;
 
